@@ -478,6 +478,31 @@ def c_map(view, bs, coll=None, key_parsed=True):
                 if fc.fn is not None and (fc.name == "from_str" or (fc.name == "parse" and fc.path.startswith("core::str::"))) \
                         and key[1][3] and strip_refs(key[1][3][0]) == want_raw:
                     okk = True
+                    # the key is parsed for every entry: no path through one iteration avoids the parse
+                    ob += 1
+                    fb = key[1][1]
+                    lp_h = loop_of(view, nbb)
+                    if lp_h is not None:
+                        body_ = [bd for h, bd in view.loops() if h == lp_h][0]
+                        k2, sbb2, info2, cur2 = __import__("sites").follow_local_use(view, nbb, view.blocks[nbb]["term"]["dest"]["l"])
+                        some_t = view.variant_target(info2, "Some") if k2 == "switch" else None
+                        import flow as _flow
+                        gs = _flow.gprime_succ(view, bs)
+                        if some_t is not None:
+                            seen_ = set()
+                            st_ = [some_t]
+                            skipped_parse = False
+                            while st_:
+                                x_ = st_.pop()
+                                if x_ in seen_ or x_ == fb or x_ not in body_:
+                                    continue
+                                seen_.add(x_)
+                                if x_ == lp_h:
+                                    skipped_parse = True
+                                    break
+                                st_.extend(gs[x_])
+                            if skipped_parse:
+                                out.append(finding("C06.MAP", view, "the key of an entry is not always parsed (an unparsable key can go unreported when something else about the entry fails first)", fb))
                     # the Err edge of from_str reports an error that names the key
                     ob += 1
                     if not _fromstr_err_reports(view, bs, key[1][1], want_raw):
